@@ -12,6 +12,7 @@ import LoomVerif.Model.Render
 import LoomVerif.Model.AtomicRun
 import LoomVerif.Spec.StdAtomic
 import LoomVerif.Oracle.SCEnum
+import LoomVerif.Oracle.RC11Enum
 
 open LoomVerif
 
@@ -134,6 +135,24 @@ partial def scMain (maxStates : Nat) : IO Unit := do
   (← IO.getStdout).flush
   scMain maxStates
 
+/-- RC11 outcomes: one litmus program per line; `strong` = SeqCst accesses really SC -/
+partial def rc11Main (strong : Bool) (maxStates maxGraphs : Nat) : IO Unit := do
+  let stdin ← IO.getStdin
+  let line ← stdin.getLine
+  if line.isEmpty then return
+  let line := line.trimAscii.toString
+  if line.isEmpty then rc11Main strong maxStates maxGraphs else
+  IO.println s!"PROG {line}"
+  match Prog.parse line with
+  | some prog =>
+    let r := RC11.explore prog strong maxStates maxGraphs
+    for o in r.outcomes do IO.println s!"OUT {o}"
+    let st := if r.unsupported then "unsupported" else if r.capped then "capped" else "ok"
+    IO.println s!"DONE {r.candidates} {r.graphs} {r.consistent} {st}"
+  | none => IO.println "DONE 0 0 0 parseError"
+  (← IO.getStdout).flush
+  rc11Main strong maxStates maxGraphs
+
 def parseOpts : List String → Opts → Opts
   | [], o => o
   | "--full" :: r, o => parseOpts r { o with full := true }
@@ -147,6 +166,8 @@ def main (args : List String) : IO Unit := do
   | "replay" :: rest => replayMain (parseOpts rest {}).full none
   | ["step"] => stepMain
   | ["c12"] => c12Main
+  | ["rc11", "strong"] => rc11Main true 200000 2000000
+  | ["rc11", "doc"] => rc11Main false 200000 2000000
   | ["sc"] => scMain 200000
   | ["sc", n] => scMain (n.toNat?.getD 200000)
   | _ => IO.eprintln "usage: lvdriver explore [--full] [--starts] [--max n] | replay [--full] | step"
